@@ -3,6 +3,7 @@ import ACModel.Model.Discretizer
 import ACModel.Spec.Discretizer
 import ACModel.Model.Json
 import ACModel.Model.Update
+import ACModel.Model.Summary
 /- driver requests around the fitted-state model: `disc.labels`, `disc.transform` -/
 open Lean Wire
 
@@ -131,6 +132,13 @@ def reload (j : Json) : R Json := do
     | some p => p.2
     | none => ratW q
   pure (exceptW stateW (s.reload keyStr))
+
+/-- `disc.summary`: rows of `summary(feature)` -/
+def summary (j : Json) : R Json := do
+  let s ← discJ (← fld j "state")
+  let f ← optStrJ j "feature"
+  pure (exceptW (listW (fun (r : Disc.SRow) => obj [("feature", Json.str r.feature), ("quant", boolW r.quant),
+    ("label", valW r.label), ("content", valsW r.content)])) (s.summary f))
 
 /-- `judge.C05`: fitted columns of an accepted frame hold fitted labels only (missing where
     `dropna=False` allows it) -/
